@@ -184,9 +184,11 @@ Moves(s) ==
 
 \* the state CreateGame returns (event ReadyRequested) for given stacks and labels
 NewHand(stacks, labels, ante, dealerB, sb, bb) ==
-  [np |-> Len(stacks), ante |-> ante, dealerB |-> dealerB, sb |-> sb, bb |-> bb,
-   ev |-> "ReadyRequested", round |-> "", cur |-> 0, raiser |-> 0, cw |-> 0, prs |-> 0, minibet |-> MaxI(dealerB, bb),
-   p |-> [i \in 0..(Len(stacks) - 1) |-> NewP(stacks[i + 1], labels[i + 1])]]
+  LET D == {i \in 0..(Len(stacks) - 1) : "dealer" \in labels[i + 1]}
+      d == IF D = {} THEN 0 ELSE MaxOf(D)      \* Initialize: ResetRoundStatus puts raiser and current player on the dealer
+  IN [np |-> Len(stacks), ante |-> ante, dealerB |-> dealerB, sb |-> sb, bb |-> bb,
+      ev |-> "ReadyRequested", round |-> "", cur |-> d, raiser |-> d, cw |-> 0, prs |-> 0, minibet |-> MaxI(dealerB, bb),
+      p |-> [i \in 0..(Len(stacks) - 1) |-> NewP(stacks[i + 1], labels[i + 1])]]
 StdLabels(n) == [i \in 1..n |-> IF n = 2 THEN (IF i = 1 THEN {"dealer", "sb"} ELSE {"bb"})
                                 ELSE (IF i = 1 THEN {"dealer"} ELSE IF i = 2 THEN {"sb"} ELSE IF i = 3 THEN {"bb"} ELSE {})]
 
